@@ -1,4 +1,4 @@
-// Runs schedules on the real souffle::DisjointSet under the cooperative scheduler (yield point "uf.get" in
+// Runs schedules on the real souffle::DisjointSet under the cooperative scheduler coop_uf.h (yield point "uf.get" in
 // DisjointSet::get = every atomic load / CAS of a block; "op" = operation boundary of this driver).
 // stdin, one job per line:   <N> <setup> <progs> <schedule> [v]
 //   setup    "u:0:2,u:1:3" or "-"        run by thread 0 alone, before the workers (sequential pre-history)
@@ -11,18 +11,18 @@
 //   J <job index>
 //   S <k> <t> <p0,p1,..> <r0,r1,..> <pt0,pt1,..> <ip0,ip1,..> <res0,res1,..>        (only with v)
 //   ERR <text>                                 explicit schedule not executable
-//   LIVELOCK                                   drain needed > 100000 rounds (the process then exits with code 3)
+//   LIVELOCK                                   drain needed > 100000 rounds (the unfinished calls are abandoned)
 //   V call <t> <op> <a> <b> | V ret <t> <r> | V st <p..> <r..> | V final <p..>   API history + observed arrays
 //   X <executed schedule>                      complete thread sequence (deterministic replay: use it as schedule)
 //   E
-#include "coop.h"
+#include "coop_uf.h"
 #include "souffle/datastructure/UnionFind.h"
 #include <cstdio>
 #include <iostream>
 #include <sstream>
 #include <unistd.h>
 using namespace souffle;
-static Coop* g = nullptr;
+static CoopUF* g = nullptr;
 static void yieldHandler(const char* pt, const void*) {
     if (g) g->yield(pt);
 }
@@ -75,15 +75,14 @@ static Exec execute(long jobIdx, const Job& job, const std::vector<int>* sched, 
     const int N = job.N, n = (int)job.progs.size();  // threads 0..n-1 (0 = setup)
     DisjointSet ds;
     for (int i = 0; i < N; i++) ds.makeNode();
-    Coop coop(n);
+    CoopUF coop(n);
     g = &coop;
     std::vector<std::string> res(n, "none");
     std::vector<int> ip(n, 1);
     std::vector<std::string> events;
-    std::vector<std::thread> th;
     for (int t = 0; t < n; t++)
-        th.emplace_back([&, t] {
-            coop.threadBody(t, [&, t] {
+        coop.spawn(t, [&, t] {
+            {
                 for (const Op& o : job.progs[t]) {
                     coop.yield("op");  // operation boundary == spec pc "next"
                     events.push_back("call " + std::to_string(t) + " " + std::string(1, o.k) + " " + std::to_string(o.a) + " " +
@@ -106,7 +105,7 @@ static Exec execute(long jobIdx, const Job& job, const std::vector<int>* sched, 
                     ip[t]++;
                 }
                 coop.yield("op");
-            });
+            }
         });
     std::vector<long> par(N), rk(N), lastPar, lastRk;
     auto observe = [&] {
@@ -237,8 +236,8 @@ static Exec execute(long jobIdx, const Job& job, const std::vector<int>* sched, 
     if (ex.livelock) {
         for (auto& e : events) std::printf("V %s\n", e.c_str());
         std::printf("LIVELOCK\nX %s\nE\n", "-");
-        std::fflush(stdout);
-        _exit(3);  // the threads cannot be joined
+        g = nullptr;
+        return ex;  // the unfinished contexts are abandoned
     }
     observe();
     events.push_back("final " + arr(par));
@@ -247,7 +246,6 @@ static Exec execute(long jobIdx, const Job& job, const std::vector<int>* sched, 
     for (std::size_t i = 0; i < ex.executed.size(); i++) xs += (i ? "," : "") + std::to_string(ex.executed[i]);
     std::printf("X %s\nE\n", xs.empty() ? "-" : xs.c_str());
     g = nullptr;
-    for (auto& x : th) x.join();
     return ex;
 }
 // bounded DFS by re-execution: decisions = (worker step index, thread); cost 1 if the running thread was still alive
